@@ -60,6 +60,10 @@ def fuzz_runner(sub, tier, seed, shard, nshards, rec):
 SUBS = [
     Sub("bounds_skew", check_obs_enum, enumerate=K.enum_skewed, exhaustive=True, variant="bounds", marker=True,
         weight=4, shards={"quick": 8, "thorough": 16}),
+    Sub("bounds_blocks", check_obs_enum, enumerate=K.enum_blocks, exhaustive=True, variant="bounds", marker=True,
+        weight=4, shards={"quick": 8, "thorough": 16}),
+    Sub("asan_blocks", check_obs_enum, enumerate=K.enum_blocks, exhaustive=True, variant="asan", marker=True,
+        weight=8, shards={"quick": 4, "thorough": 16}),
     Sub("bounds_exh", check_obs_enum, enumerate=enum_bounds, exhaustive=True, variant="bounds",
         marker=True, weight=5),
     Sub("bounds_hyp", check_obs, strategy=lambda tier: K.pair_cases(300), variant="bounds", marker=True,
